@@ -1,7 +1,7 @@
 """C11 - cotengra's matmul-based einsum and tensordot agree with the reference.
 
-Enumerated: every two-operand equation over <=3 symbols with rank <=3 (quick;
-thorough adds 4 symbols / rank 4) x every admissible output order x every
+Enumerated: every two-operand equation over <=4 symbols with rank <=3 (quick;
+thorough adds rank 4) x every admissible output order x every
 size assignment from {1,2,3}; every single-operand equation of rank <=4;
 tensordot for every pair of shapes of rank <=3 over {1,2,3} and every axes
 specification.  Each case runs twice with different data (plans are cached on
@@ -27,7 +27,7 @@ TECHNIQUE = (
 )
 LEVEL_TEXT = (
     "cotengra.contract.einsum / tensordot are run on the complete set of "
-    "equations over <=3 (thorough: 4) symbols with operand rank <=3 (4), "
+    "equations over <=4 symbols with operand rank <=3 (thorough: 4), "
     "every output order, every {1,2,3} size assignment, and on every "
     "tensordot axes spec for all shapes of rank <=3, twice with different "
     "data, with the backend's einsum present and hidden; results compared "
@@ -92,7 +92,8 @@ def universe(name):
 
 def units(tier, seed):
     if tier == "quick":
-        plan = [("pair33", 100), ("single34", 100), ("tdot3", 100)]
+        plan = [("pair43", 100), ("pair33", 100), ("single34", 100),
+                ("tdot3", 100)]
     else:
         plan = [("pair43", 150), ("pair34", 150), ("pair33", 100),
                 ("single45", 200), ("single34", 100), ("tdot3", 50)]
